@@ -24,6 +24,8 @@ type C17Case struct {
 	K    int     `json:"k,omitempty"`
 	N    int     `json:"n,omitempty"`
 	Seed uint32  `json:"seed,omitempty"`
+	// FirstCall: the named function is run as the first call into its package in a fresh process
+	FirstCall string `json:"first_call,omitempty"`
 	// sketch variants
 	RC        []bool `json:"rc,omitempty"`        // reverse-complement sequence i (cyclic)
 	CaseMode  int    `json:"case_mode,omitempty"` // 0 keep, 1 lower, 2 upper, 3 alternate
@@ -185,6 +187,11 @@ func sketchView(n, k int, seqs [][]byte) (view []uint64, err error) {
 }
 
 func checkC17(c C17Case, o *Obs) error {
+	if c.FirstCall != "" {
+		o.NT = true
+		o.Class("first call in a fresh process")
+		return runFirstCall(c.FirstCall)
+	}
 	o.Class("kind:" + c.Kind)
 	if c.Kind == "jaccard" {
 		return checkFromJaccard(c, o)
@@ -583,6 +590,12 @@ func checkFromJaccard(c C17Case, o *Obs) error {
 }
 
 func exhaustiveC17(thorough bool, emit func(C17Case) bool) {
+	if !emit(C17Case{FirstCall: "mash.Sequences"}) {
+		return
+	}
+	if !emit(C17Case{FirstCall: "mash.FromJaccard"}) {
+		return
+	}
 	// one chromosome-arm-sized sequence (beyond 2^18 bases) between two short records
 	if !emit(C17Case{Kind: "sketch", Seqs: []gen.B{gen.B("ACGTTGCAATGGCCA"), realDNA(300007, 3, true, true), gen.B("TTGACCAGTAGGATCCA")}, K: 21, N: 1000, RC: []bool{true, false}, Rot: 1, Partition: []int{1, 2}, N2: 9}) {
 		return
